@@ -1,3 +1,4 @@
-// Kani contracts for /repo/src/value/value/crud/mod.rs (child module via cfg(kani) hook).
+// /repo/src/value/value/crud/mod.rs: verified by the Verus unit v_crud_vec (a Kani harness over Vec<Value>
+// element operations ran into the Value drop-glue explosion and timed out).
 #![allow(warnings)]
 use super::*;
